@@ -15,6 +15,14 @@ use std::time::Instant;
 use crate::hookmon;
 use crate::json::J;
 
+/// Set by the Miri / ASan lane binary: generators shrink their cases (few fields, few prefixes)
+/// so that an interpreter four orders of magnitude slower still gets through hundreds of calls.
+pub static LANE_MODE: AtomicBool = AtomicBool::new(false);
+
+pub fn lane_mode() -> bool {
+    LANE_MODE.load(Ordering::Relaxed)
+}
+
 #[derive(Clone, Copy, PartialEq, Eq, Debug)]
 pub enum Tier {
     Quick,
